@@ -198,6 +198,41 @@ theorem reserves_per_share_nondecreasing :
   ⟨fun _ _ _ _ _ _ _ _ h hd => reserves_per_share_nondecreasing_deposit h hd,
    fun _ _ _ _ _ _ _ h hw => let ⟨a, b, _, _⟩ := reserves_per_share_nondecreasing_withdraw h hw; ⟨a, b⟩⟩
 
+/-- `Deposit` does not reach the overflow arm when the offers are inside the module bounds (≤ 10^40) and the
+shares to be minted stay below 10^76 for one of the coins (`ps·x ≤ 10^76·rx`): `ps·ratio`, the only intermediate
+that can exceed 315 bits, then stays below 10^94 < 2^315.  No bound on reserves or supply is needed. -/
+theorem deposit_no_overflow_of_small_mint {rx ry ps x y : Int} (h : DepositDom rx ry ps x y)
+    (bx : x ≤ 10^40) (bY : y ≤ 10^40)
+    (hm : (0 < rx ∧ ps * x ≤ 10^76 * rx) ∨ (0 < ry ∧ ps * y ≤ 10^76 * ry)) :
+    overflows (depositCore rx ry ps x y) = false ∧ deposit rx ry ps x y = some (depositVals rx ry ps x y) := by
+  have hdom := h
+  obtain ⟨hrx, hry, hr, hps, hx, hy⟩ := h
+  have hP := P_pos
+  obtain ⟨r0, r1, r2⟩ := ratioVal_facts hrx hry hr hx hy
+  have key : ∀ r off : Int, 0 < r → r * ratioVal rx ry x y ≤ off * Dec.P → ps * off ≤ 10^76 * r →
+      ps * ratioVal rx ry x y < B315 := by
+    intro r off hr0 hle hb
+    have h1 : (ps * ratioVal rx ry x y) * r ≤ (10^76 * Dec.P) * r := by
+      calc (ps * ratioVal rx ry x y) * r = ps * (r * ratioVal rx ry x y) := by ring
+        _ ≤ ps * (off * Dec.P) := Int.mul_le_mul_of_nonneg_left hle (Int.le_of_lt hps)
+        _ = (ps * off) * Dec.P := by ring
+        _ ≤ (10^76 * r) * Dec.P := Int.mul_le_mul_of_nonneg_right hb (Int.le_of_lt hP)
+        _ = (10^76 * Dec.P) * r := by ring
+    exact Int.lt_of_le_of_lt (Int.le_of_mul_le_mul_right h1 hr0) (by decide)
+  have hov : ps * ratioVal rx ry x y < B315 := by
+    rcases hm with ⟨a, b⟩ | ⟨a, b⟩
+    · exact key rx x a r1 b
+    · exact key ry y a r2 b
+  have e := depositCore_eq_ok hdom (by simpa [E40] using bx) (by simpa [E40] using bY) hov
+  refine ⟨by rw [e]; rfl, ?_⟩
+  unfold deposit; rw [e]
+
+/-- `Withdraw` never reaches the overflow arm inside the module bounds (reserves ≤ 10^40; any supply). -/
+theorem withdraw_no_overflow_within_bounds {rx ry ps pc : Int} {fee : Dec} (h : WithdrawDom rx ry ps pc fee)
+    (bx : rx ≤ 10^40) (bY : ry ≤ 10^40) :
+    overflows (withdrawCore rx ry ps pc fee) = false := by
+  rw [withdrawCore_eq_ok h (by simpa [E40] using bx) (by simpa [E40] using bY)]; rfl
+
 /-! ### Non-vacuity: concrete runs inside the domains -/
 
 example : DepositDom 1000000 3000000 2000 500 1600 ∧ deposit 1000000 3000000 2000 500 1600 = some (500, 1500, 1) := by
@@ -208,5 +243,78 @@ example : WithdrawDom 1000 2000 10 3 3000000000000000 ∧ (3:Int) ≠ 10 ∧
     withdraw 1000 2000 10 3 3000000000000000 = some (299, 598) := by
   set_option exponentiation.threshold 512 in decide
 example : withdraw 1000 2000 10 10 3000000000000000 = some (1000, 2000) := last_share_gets_all _ _ _ _
+
+/-! ## Ranged pools -/
+
+/-- An accepted `CreateRangedPool` had an admissible price triple (what "admissible" means in the property),
+and the pool remembers exactly that range. -/
+theorem create_ok_implies_admissible {x y : Int} {minP maxP initP : Dec} {p : RPool}
+    (h : createRangedPool x y minP maxP initP = .ok (some p)) :
+    (0 < x ∨ 0 < y) ∧ minPoolPrice ≤ minP ∧ minP < maxP ∧ maxP ≤ maxPoolPrice ∧ minP ≤ initP ∧ initP ≤ maxP ∧
+    minGapRatio ≤ Dec.quo (Dec.sub maxP minP) minP ∧ p.minP = minP ∧ p.maxP = maxP := by
+  obtain ⟨a, v, m1, m2⟩ := createRangedPool_ok h
+  obtain ⟨_, b1, b2, b3, b4, b5, b6⟩ := validate_ok_true v
+  exact ⟨a, b1, b3, b2, b4, b5, b6, m1, m2⟩
+
+/-- **The price-range clause is FALSE of the code** — everyday prices, an on-tick admissible triple
+(min 3.2, max 3.2032, initial 3.2), a y-only deposit of 65 721 122: the created pool's price is
+3.199999999999999999 < 3.2 = minPrice. -/
+theorem ranged_price_in_range_counterexample :
+    createdReserves 0 65721122 3200000000000000000 3203200000000000000 3200000000000000000 = some (0, 65721122) ∧
+    createdPrice 0 65721122 3200000000000000000 3203200000000000000 3200000000000000000 = some 3199999999999999999 ∧
+    ¬ PriceInRange 3200000000000000000 3203200000000000000 3199999999999999999 := by
+  set_option exponentiation.threshold 512 in decide
+
+/-- … and above the maximum: min 0.000089, max 8.9, initial 8.9, x-only pool: price 8.900000000000000001. -/
+theorem ranged_price_above_max_counterexample :
+    createdReserves 25435609390 11 89000000000000 8900000000000000000 8900000000000000000 = some (25435609390, 0) ∧
+    createdPrice 25435609390 11 89000000000000 8900000000000000000 8900000000000000000 = some 8900000000000000001 ∧
+    ¬ PriceInRange 89000000000000 8900000000000000000 8900000000000000001 := by
+  set_option exponentiation.threshold 512 in decide
+
+/-- … and not only by one ulp: at prices near the upper module bound (min 4.603·10^19, max 10^20, initial
+4.7485·10^19, all on ticks; offer 6.6·10^19 / 8.9·10^31) the pool is created with reserves (6.6·10^19, 28) and its
+price is 6.83·10^18 — 85 % below minPrice (`1/sqrt(P)` has only 8 significant digits there). -/
+theorem ranged_price_far_below_min_counterexample :
+    createdReserves 66000000000000000000 89000000000000000000000000000000
+        46030000000000000000000000000000000000 100000000000000000000000000000000000000
+        47485000000000000000000000000000000000 = some (66000000000000000000, 28) ∧
+    createdPrice 66000000000000000000 89000000000000000000000000000000
+        46030000000000000000000000000000000000 100000000000000000000000000000000000000
+        47485000000000000000000000000000000000 = some 6829975878090043315189425532011435350 ∧
+    (6829975878090043315189425532011435350 : Int) * 100 < 15 * 46030000000000000000000000000000000000 := by
+  set_option exponentiation.threshold 512 in decide
+
+/-- **What does hold (partial).** For every ranged pool record built by `NewRangedPool` (any reserves, any
+range) whose translation is non-negative with `transY > 0`, the price lies between the prices of the two
+single-asset end points of the pool's OWN translated curve:
+`transX/(ry+transY) ≤ price ≤ (rx+transX)/transY` (in `Dec` arithmetic, with `Quo`'s rounding).
+MISSING for the full clause: `transX/(ry_max+transY) = minPrice` and `(rx_max+transX)/transY = maxPrice`; these
+hold only approximately (`approxSqrt`, `Quo`, `Mul` roundings), see the counterexamples above. -/
+theorem ranged_price_between_curve_endpoints_partial {rx ry ps : Int} {minP maxP : Dec} {p : RPool} {v : Dec}
+    (hp : newRangedPool rx ry ps minP maxP = .ok p) (hrx : 0 ≤ rx) (hry : 0 ≤ ry)
+    (htx : 0 ≤ p.transX) (hty : 0 < p.transY) (hv : rangedPrice p = .ok v) :
+    Dec.quo p.transX p.yComp ≤ v ∧ v ≤ Dec.quo p.xComp p.transY := by
+  obtain ⟨_, _, _, _, ex, ey⟩ := newRangedPool_ok hp
+  have hP := P_pos
+  have hx : p.transX ≤ p.xComp := by
+    rw [ex]; show p.transX ≤ rx * Dec.P + p.transX
+    exact Int.le_add_of_nonneg_left (Int.mul_nonneg hrx (Int.le_of_lt hP))
+  have hy : p.transY ≤ p.yComp := by
+    rw [ey]; show p.transY ≤ ry * Dec.P + p.transY
+    exact Int.le_add_of_nonneg_left (Int.mul_nonneg hry (Int.le_of_lt hP))
+  have hv' : v = Dec.quo p.xComp p.yComp := by
+    unfold rangedPrice at hv
+    split at hv
+    · exact absurd hv (by simp)
+    · exact (quo_ok hv).2
+  rw [hv']
+  exact ⟨quo_mono_num htx hx (Int.lt_of_lt_of_le hty hy), quo_anti_den (Int.le_trans htx hx) hty hy⟩
+
+/-- non-vacuity of the partial theorem: a real two-sided pool (reserves 10^12 / 10^12, range [1, 4]) -/
+example : (match newRangedPool 1000000000000 1000000000000 1000000000000 1000000000000000000 4000000000000000000 with
+    | .ok p => decide (0 ≤ p.transX ∧ 0 < p.transY) && (match rangedPrice p with | .ok v => decide (PriceInRange p.minP p.maxP v) | _ => false)
+    | _ => false) = true := by
+  set_option exponentiation.threshold 512 in decide
 
 end Comdex.C06
